@@ -35,8 +35,12 @@ suite=$( (timeout 2400 go test -vet=off -count=1 -timeout 30m -skip '^TestSequen
 fails=$(echo "$suite" | grep -E "^--- FAIL" | sed 's/--- FAIL: //; s/ .*//' | sort -u | tr '\n' ' ')
 # load-sensitive tests (they also fail on the unchanged tree when the machine is busy): re-run them alone once
 if echo "$fails" | grep -qE "TestScripts|TestSequenceLargeLog"; then
-  re=$( (timeout 1200 go test -vet=off -count=1 -timeout 15m -run '^TestScripts$' $pkgs) 2>&1 | grep -E "^(ok|FAIL|---)" | head -20 ); echo "== re-run of load-sensitive tests alone: $re" >>$log
-  refails=$(echo "$re" | grep -E "^--- FAIL" | sed 's/--- FAIL: //; s/ .*//' | sort -u | tr '\n' ' ')
+  for attempt in 1 2 3; do
+    re=$( (timeout 1200 go test -vet=off -count=1 -p 1 -timeout 15m -run '^TestScripts$' $pkgs) 2>&1 | grep -E "^(ok|FAIL|---)" | head -20 ); echo "== re-run $attempt of load-sensitive tests alone: $re" >>$log
+    refails=$(echo "$re" | grep -E "^--- FAIL" | sed 's/--- FAIL: //; s/ .*//' | sort -u | tr '\n' ' ')
+    [ -z "$refails" ] && break
+    sleep 20
+  done
   fails=$( (echo "$fails" | tr ' ' '\n' | grep -vE "^(TestScripts|TestSequenceLargeLog)$"; echo "$refails" | tr ' ' '\n') | grep -v '^$' | sort -u | tr '\n' ' ')
 fi
 mkdir -p $out
